@@ -10,6 +10,8 @@
 (*         documented").  The extra native-only parameters exist so that TLC can (a) certify    *)
 (*         that flipping them changes the native result (non-vacuity: a dropped or transposed   *)
 (*         argument would be visible) and (b) name the defect class of a mismatch.             *)
+(* The native call of the Inflate* functions is the documented C++ InflatePaths: delta = 0 returns the input paths      *)
+(* unchanged; otherwise ClipperOffset(miter_limit, arc_tolerance [* 10^prec], pc, rs) on the [scaled] paths.             *)
 (* Codes: doubles are given in quarter units (delta, ml = miter limit, at = arc tolerance);    *)
 (* ct/fr/jt/et are the documented enum values; prec = decimal precision; pc/rs = preserve      *)
 (* collinear / reverse solution; rect = index into Rects (quarter units; the last one empty).  *)
@@ -26,7 +28,7 @@ FR == <<0, 1, 2, 3>>
 PREC == <<2, 0, 1>>
 JT == <<0, 1, 2, 3>>
 ET == <<0, 1, 2, 3, 4>>
-DELTA == <<10, -8, 20>>
+DELTA == <<10, -8, 20, 0>>
 ML == <<8, 20>>
 AT == <<0, 1, 8>>
 Rects == <<<<8, 4, 44, 36>>, <<-20, 10, 24, 90>>, <<30, 10, 30, 40>>>>
